@@ -356,6 +356,18 @@ def rule_solar_class(chk, prog):
   chk.require(lon is not None and lat is not None, f'{site}: lon / lat are not set')
   is_axis = lambda i: (lambda t: t.k == 'sub' and t.a[1] == sym.const(i) and t.a[0].k == 'attr' and t.a[0].a[1] in ('nodal_axes', 'nodal_mesh'))
   chk.check(sym.contains(lon, is_axis(0)) and not sym.contains(lon, is_axis(1)), rule, f'{site}: self.lon is the longitude mesh (axis 0)', sym.show(lon)[:160], loc)
+  # the Grid's axes carry longitude_offset; the implementation object's own nodal_axes start at longitude 0 whatever the offset
+  impl_axis = lambda i: (lambda t: t.k == 'sub' and t.a[1] == sym.const(i) and t.a[0].k == 'attr' and t.a[0].a[1] in ('nodal_axes', 'nodal_mesh') and t.a[0].a[0].k == 'attr'
+                         and t.a[0].a[0].a[1] == 'spherical_harmonics')
+  raw = [t for t in sym.walk(lon) if impl_axis(0)(t)]
+  if raw:
+    Al = alg.Algebra(ev2, opaque=lambda t: impl_axis(0)(t))
+    off = Term('attr', raw[0].a[0].a[0].a[0], 'longitude_offset')
+    okl = alg.equal(Al.conv(lon), Al.conv(raw[0]) + Al.conv(off))
+  else:
+    okl = True   # taken from the Grid-level property as a whole
+  chk.check(okl, rule, f'{site}: self.lon carries the grid\'s longitude_offset (the implementation object\'s own axes start at longitude 0 whatever the offset)', sym.show(lon)[:160], loc,
+            'implementation longitudes + grid.longitude_offset', sym.show(lon)[:160])
   la = trig_factor(lat, 'arcsin')
   chk.check(la is not None and is_axis(1)(util.strip(la)), rule, f'{site}: self.lat = arcsin(sin-latitude mesh) (axis 1)', sym.show(lat)[:160], loc, 'arcsin(nodal_mesh[1])', sym.show(lat)[:160])
   for fld, g_ in (('total_solar_irradiance', 'TOTAL_SOLAR_IRRADIANCE'), ('solar_irradiance_variation', 'SOLAR_IRRADIANCE_VARIATION')):
